@@ -269,6 +269,15 @@ fn run_sub(s: &Sub, events: Vec<Ev>, reads: &ReadPlan, rereads: &[usize], ctx: &
             }
             Err(_) => ctx.label("helper-err"),
         },
+        Consumed::Json(r) => match r {
+            Ok(v) => {
+                if must_fail {
+                    return Outcome::fail(format!("C02:helper-ok-on-incomplete:{fname}"), format!("json() returned Ok({v}) for fault {:?}", s.mode));
+                }
+                ctx.label("json-helper-ok");
+            }
+            Err(_) => ctx.label("helper-err"),
+        },
     }
     Outcome::Pass
 }
